@@ -115,8 +115,14 @@ class Universe:
         self.guard = ArgGuard()
         self.datasets = {1: [], 2: []}
         for ncomp in (1, 2):
+            # a third of the pools hold datasets of ONE size (other points, other values): state keyed by
+            # size or shape that survives a refit is only visible then
+            same_size = tape.coin(0.35, f"pool{ncomp}.same_size")
+            n_fixed = None
             for i in range(tape.randint(2, 3, f"pool{ncomp}.n")):
-                ds = gen_dataset(tape, ncomp=ncomp, nmin=14, nmax=40, allow_extra=False, tag=f"P{ncomp}{i}")
+                ds = gen_dataset(tape, ncomp=ncomp, nmin=14, nmax=40, allow_extra=False, tag=f"P{ncomp}{i}", n=n_fixed)
+                if same_size:
+                    n_fixed = ds.n
                 # most datasets are read-only; some stay writable so that a call that scribbles on its
                 # arguments "temporarily" (and restores them) is visible when it is interrupted
                 ro = not tape.coin(0.35, f"P{ncomp}{i}.writable")
